@@ -49,6 +49,9 @@ def run(ctx, spec):
                     sd2["hosts"] = [(a, dict(c, val=c["val"] + 1 if (a, c["val"]) not in sd["sens"] else c["val"]))
                                     for a, c in sd["hosts"]]
                     sd2["sens"] = [(a, dict(sd2["hosts"])[a]["val"]) for a, _ in sd["sens"]]
+                    # ... other scan costs and other action costs, too
+                    sd2["costs"] = tuple(c + rng.choice([1, 2, 0.5]) for c in sd["costs"])
+                    sd2["exploits"] = [dict(e, cost=e["cost"] + 1) for e in sd["exploits"]]
                     if "names" in sd:
                         scen_list.append(base)
                     else:
@@ -96,7 +99,7 @@ def run(ctx, spec):
                 if len(created) < nenv and (not created or rng.random() < 0.25):
                     i = len(created)
                     name, sd, sc = scen_list[i]
-                    modes = [rng.randrange(2), 1, rng.randrange(2)]
+                    modes = [rng.randrange(2), rng.randrange(2), rng.randrange(2)]
                     nid = name_ids.setdefault(keys[i][1], len(name_ids))
                     runners[i] = ImplRunner(sc, sd, modes)
                     fl = run_driver([[1, scen.sd_wire(sd)]])[0][0]
@@ -130,7 +133,8 @@ def run(ctx, spec):
                     except Exception:   # noqa: BLE001  (guidance reads the tensor with a foreign layout)
                         ai = rng.randrange(len(fl))
                     k = gen.pick_draw(fl[ai][3])
-                    op = [1, [0, ai], k] if x < 0.85 else [2, rng.randrange(len(r.pool)), [0, ai], k]
+                    arg = [0, ai] if r.modes[1] else [1, dyn.param_vector(rng, scen_list[i][1], fl[ai])]
+                    op = [1, arg, k] if x < 0.85 else [2, rng.randrange(len(r.pool)), arg, k]
                 mops.append([2, i, op])
                 try:
                     impl_outs.append(r.run_op(op))
